@@ -126,6 +126,14 @@ func (h *Hub) ServeHTTP(w http.ResponseWriter, r *http.Request) {
 	// the check and the registration have to be one step: with an incoming and an outgoing connection being set up
 	// at the same time both could pass the check and one of them would stay alive without being registered
 	h.muxConReg.Lock()
+
+	// no new connections after a shutdown, the request may have arrived while the hub was being shut down
+	if h.checkIsShutdown() {
+		h.muxConReg.Unlock()
+		_ = conn.Close()
+		return
+	}
+
 	if !h.keepThisConnection(conn, true, remoteService) {
 		h.muxConReg.Unlock()
 		_ = conn.Close()
@@ -217,6 +225,13 @@ func (h *Hub) connectFoundService(remoteService *api.ServiceDetails, host, port,
 
 	// the check and the registration have to be one step, see ServeHTTP
 	h.muxConReg.Lock()
+
+	// no new connections after a shutdown, the hub may have been shut down while the connection was being established
+	if h.checkIsShutdown() {
+		h.muxConReg.Unlock()
+		_ = conn.Close()
+		return nil
+	}
 
 	// the pairing may have been removed while the connection was being established
 	pairingState := remoteService.ConnectionStateDetail().State()
